@@ -82,7 +82,7 @@ def run_roundtrip(fn, L, slo, shi, cfg):
 
 def worker(t):
     prog = H.get_program()
-    S.BITS_MODE[:] = ['uf', 128]
+    S.BITS_MODE[:] = ['ladder', 192]        # exact bit-length facts (the pinned code of this property never asks for bits() of a symbolic integer; rewrites might)
     return H.explore_task(prog, run_roundtrip(t['fn'], t['L'], t['slo'], t['shi'], t['cfg']), task=t, loop_bound=4000, timeout_ms=60000, deadline_s=900)
 
 
